@@ -147,8 +147,9 @@ def rule_from_unpack_template(ctx: Ctx) -> None:
     if ok2:
         v = j[3]
         e = j[1]
+        hook = "cls.fix_unpack_{" + v + "}({" + v + "})"
         ok2 = norm(e.test) == f"hasattr({src}, 'fix_unpack_' + {v})" and norm(e.orelse) == v and isinstance(e.body, ast.JoinedStr) \
-            and ("cls.fix_unpack_{" + v + "}({" + v + "})") in _template_text(e.body)
+            and _template_text(e.body) in (hook, "None if {" + v + "} is None else " + hook)
     ctx.check(ok and ok2, "template-from-unpack-list", fi, fi.node, "parameters and arguments: names in order; fix_unpack_<name> exactly under hasattr(src_cls, 'fix_unpack_' + name)",
               "the generated from_unpack_list does not pass the fields in order with fix_unpack_ exactly where the class defines it")
     fc = single_def(fi, "f_code")
@@ -265,8 +266,15 @@ def rule_type_map(ctx: Ctx) -> None:
     ok = len(nm) == 1 and len(fl) == 1 and norm(nm[0].value) == "[field.name for field in dt_fields]" and norm(fl[0].value) == "[type_map(type_hints[field.name]) for field in dt_fields]" \
         and norm(single_def(cp, "dt_fields")[0]) == f"dataclasses.fields({p})"
     ctx.check(ok, "type-map", cp, cp.node, "names and format_list are derived from the same dataclass field order", "names and formats of a dataclass payload come from different orders")
-    ok = any(call_name(c) == "setattr" and isinstance(c.args[2], ast.Call) and chain(c.args[2].func) == "vp_compile" and norm(c.args[2].args[0]) == p for c in calls(cp))
-    ctx.check(ok, "type-map", cp, cp.node, "the dataclass is replaced by vp_compile(dataclass_type)", "dataclass payloads are not compiled from their own definition")
+    comp = [c for c in calls(cp) if call_name(c) == "setattr" and isinstance(c.args[2], ast.Call) and chain(c.args[2].func) == "vp_compile" and norm(c.args[2].args[0]) == p]
+    ctx.check(bool(comp), "type-map", cp, cp.node, "the dataclass is replaced by vp_compile(dataclass_type)", "dataclass payloads are not compiled from their own definition")
+    # every class that reaches convert_to_payload is converted from ITS OWN fields: no early exit / guard that an inherited attribute could satisfy
+    cfgc = ctx.cfg(cp)
+    must = [n for s_ in [*nm, *fl] for n in cfgc.nodes_for(s_)] + [n for c in comp for n in cfgc.nodes_for(c)]
+    ok = bool(comp) and all(cfgc.exit not in cfgc.reach(cut_nodes=cfgc.nodes_for(x), follow_exc=False) for x in [*nm, *fl, *comp])
+    ctx.check(ok, "type-map", cp, cp.node, "convert_to_payload always derives names/format_list and compiles (no skip path)",
+              "convert_to_payload can return without deriving names/format_list and compiling the class (e.g. a 'convert once' guard satisfied by an attribute "
+              "inherited from a parent dataclass payload): the subclass keeps the parent's wire format and drops its own fields")
 
 
 def rule_library_defaults(ctx: Ctx) -> None:
